@@ -14,7 +14,7 @@ class Gen:
         self.in_fn = 0
         self.in_loop = 0
         self.ncb = 0                  # number of callback call sites emitted (upper bound on invocations is dynamic)
-        self.feat = dict(tryc=True, fns=True, lambdas=True, cbs=True, errors=True, refs=True, vecs=False, globals=False, strs=False, trybias=False, optbias=False, evals=False, overloads=True)
+        self.feat = dict(tryc=True, fns=True, lambdas=True, cbs=True, errors=True, refs=True, vecs=False, globals=False, strs=False, trybias=False, optbias=False, evals=False, overloads=True, refassign=False)
         if feat:
             self.feat.update(feat)
         self.hist = {}
@@ -115,6 +115,11 @@ class Gen:
             return "(decl %s %s)" % (n, e)
         if k == 1:
             self.note("assign")
+            if self.feat["refassign"] and r.chance(1, 5):
+                # `:=` rebinds the name to the right-hand side's value; on a parameter or reference it goes through to what they alias
+                self.note("ref-assign")
+                tgt = r.choice(self.vars_of("int"))
+                return "(try (block (eq := (id %s) %s)) (catch %s (block (print (int -8)))))" % (tgt, self.int_expr(), self.fresh())
             return "(eq %s (id %s) %s)" % (r.choice(["=", "+=", "-=", "*=", "="]), r.choice(ints), self.int_expr())
         if k == 2:
             return "(pre %s (id %s))" % (r.choice(["inc", "dec"]), r.choice(ints))
@@ -316,9 +321,15 @@ class Gen:
             f = "f%d" % self.next_fn
             self.next_fn += 1
             b, a1, a2 = self.fresh(), self.fresh(), self.fresh()
+            h = name if not name.startswith("f") else self.fresh()
+            if r.chance(1, 2):
+                # names that are prefixes of one another: the variable found in a stale slot resembles the one looked up
+                self.note("hint-slot-shift-prefix-names")
+                a1 = a2 + "3"
+                h = a1 + "4"
             self.funs[f] = 1
             body = ("(block (if (bin == (id %s) (int 1)) (block (evalstr (decl %s (int %d))))) (decl %s (int 1)) (decl %s (bin + (id %s) (int 1))) "
-                    "(print (id %s)) (print (id %s)) (bin + (id %s) (id %s)))" % (b, name if not name.startswith("f") else self.fresh(), val, a1, a2, a1, a1, a2, a1, a2))
+                    "(print (id %s)) (print (id %s)) (bin + (id %s) (id %s)))" % (b, h, val, a1, a2, a1, a1, a2, a1, a2))
             calls = " ".join("(print (call (fid %s) (int %d)))" % (f, r.choice([0, 1, 1, 2])) for _ in range(r.range(2, 4)))
             return "(block (noop)) (def %s (%s) %s) %s" % (f, b, body, calls)
         if form == 3:
